@@ -372,4 +372,76 @@ func c16NodeFacts(l *lean) {
 		})
 	}
 	l.def("updateValidatedGuard", "List String", leanStrList(guard), guard)
+
+	// ---- Module.update: what one refresh cycle does, in order, and whether a failing step ends the cycle
+	var cyc2 []string
+	for _, d := range module.Decls {
+		fd, ok := d.(*ast.FuncDecl)
+		if !ok || fd.Name.Name != "update" || fd.Recv == nil {
+			continue
+		}
+		ast.Inspect(fd.Body, func(n ast.Node) bool {
+			fl, ok := n.(*ast.FuncLit)
+			if !ok {
+				return true
+			}
+			ast.Inspect(fl.Body, func(m ast.Node) bool {
+				switch x := m.(type) {
+				case *ast.CallExpr:
+					f := exprString(x.Fun)
+					if strings.HasPrefix(f, "m.registrationManager.") || strings.HasPrefix(f, "m.clientUpdater.") {
+						cyc2 = append(cyc2, f)
+					}
+				case *ast.ReturnStmt:
+					cyc2 = append(cyc2, "return")
+				}
+				return true
+			})
+			return false
+		})
+	}
+	l.def("updateCycleCalls", "List String", leanStrList(cyc2), cyc2)
+
+	// ---- applyQuery: the column map, the comparison operators in source order, the joins
+	_, store := parseFile("discovery/store.go")
+	var cols [][2]string
+	var qops, joins []string
+	if fd := funcDecl(store, "applyQuery"); fd != nil {
+		ast.Inspect(fd.Body, func(n ast.Node) bool {
+			switch x := n.(type) {
+			case *ast.CompositeLit:
+				if strings.HasPrefix(c16ExprSrc(x.Type), "map[string]string") {
+					for _, e := range x.Elts {
+						if kv, ok := e.(*ast.KeyValueExpr); ok {
+							k, _ := strconv.Unquote(c16ExprSrc(kv.Key))
+							v, _ := strconv.Unquote(c16ExprSrc(kv.Value))
+							cols = append(cols, [2]string{k, v})
+						}
+					}
+				}
+			case *ast.ValueSpec:
+				if len(x.Names) == 1 && x.Names[0].Name == "op" && len(x.Values) == 1 {
+					if v, err := strconv.Unquote(c16ExprSrc(x.Values[0])); err == nil {
+						qops = append(qops, v)
+					}
+				}
+			case *ast.AssignStmt:
+				if len(x.Lhs) == 1 && c16ExprSrc(x.Lhs[0]) == "op" {
+					if v, err := strconv.Unquote(c16ExprSrc(x.Rhs[0])); err == nil {
+						qops = append(qops, v)
+					}
+				}
+			case *ast.CallExpr:
+				if strings.HasSuffix(exprString(x.Fun), ".Joins") && len(x.Args) == 1 {
+					if v, err := strconv.Unquote(c16ExprSrc(x.Args[0])); err == nil {
+						joins = append(joins, v)
+					}
+				}
+			}
+			return true
+		})
+	}
+	l.def("queryColumns", "List (String × String)", c16PairList(cols, func(s string) string { return fmt.Sprintf("%q", s) }), cols)
+	l.def("queryOps", "List String", leanStrList(qops), qops)
+	l.def("queryJoins", "List String", leanStrList(joins), joins)
 }
